@@ -2,7 +2,8 @@
     Statements only; proofs are in Proofs/. *)
 From Coq Require Import List NArith ZArith.
 From Cicada Require Import Base.Chars Base.Tag Base.Regex Gen.ShellRegexes Model.Expand Model.ExpandRef
-  Proofs.ExpandBasics Proofs.BraceProofs Proofs.BraceWitness Proofs.RangeGlobProofs.
+  Proofs.ExpandBasics Proofs.BraceProofs Proofs.BraceWitness Proofs.RangeGlobProofs Proofs.PassOrder.
+From Cicada Require Model.Tokenizer.
 Import ListNotations.
 Local Open Scope N_scope.
 
@@ -106,6 +107,17 @@ Proof. exact home_with_dollar. Qed.
 Example C12_single_alternative :
   brace_getitem [123; 97; 125; 123; 98; 44; 99; 125] 0 = Ok ([[123; 97; 125; 98]; [123; 97; 125; 99]], []).
 Proof. exact single_alternative_group. Qed.
+
+(** Pass order (part of the transcription of do_expansion): braces are expanded BEFORE file names.  Computed on the
+    composed model with the real tokenizer, against a directory oracle holding a1, b1 and a file named x{1,2}.log:
+    one word with a comma group and a star is split first and each part is globbed; a matched file NAME that holds a
+    brace group stays as it is. *)
+Example C12_pass_order_brace_glob :
+  do_expansion Tokenizer.parse_line W_dir 4 [(TNone, [101; 99; 104; 111]); (TNone, [123; 97; 44; 98; 125; 42])]
+  = Ok [(TNone, [101; 99; 104; 111]); (TNone, [97; 49]); (TNone, [98; 49])] /\
+  do_expansion Tokenizer.parse_line W_dir 4 [(TNone, [101; 99; 104; 111]); (TNone, [120; 42; 46; 108; 111; 103])]
+  = Ok [(TNone, [101; 99; 104; 111]); (TNone, [120; 123; 49; 44; 50; 125; 46; 108; 111; 103])].
+Proof. split; [exact brace_then_glob | exact glob_result_not_braced]. Qed.
 
 Check C12_brace : forall t, wf_term t = true -> brace_getitem (render_term t) 0 = Ok (den_term t, []).
 Check C12_order : forall (sel : token -> res selr) toks,
